@@ -225,6 +225,13 @@ def run(ctx):
         r8.check(ok, "in-step:" + key, okmsg, failmsg + " - from then on the status byte pgcat sees belongs to the previous request: after a client's BEGIN the connection looks idle and is released inside the open transaction")
     for key, ok, okmsg, failmsg in own_request_findings(F)[0]:
         r8.check(ok, "in-step:" + key, okmsg, failmsg)
+    # what in_transaction says *is* the status byte: cleared for 'I' only (round 10: 'I' | 'E' folded into one arm)
+    from common import ready_for_query_status_findings
+    rfq = ready_for_query_status_findings(F)
+    if rfq is None:
+        r8.missing("the ReadyForQuery status switch of Server::recv")
+    for key, ok, okmsg, failmsg in rfq or []:
+        r8.check(ok, "in-step:" + key, okmsg, failmsg)
     from common import recv_handout_findings
     for key, ok, okmsg, failmsg in recv_handout_findings(F):
         if ok is not None:
